@@ -196,7 +196,10 @@ def run(ck, ix, tier):
         f = ix.func(PQ, f"PlainQuantity.{name}")
         ck.analysed(f)
         cfg = cfg_of(f)
-        gates = [n.id for n in cfg.nodes if n.kind == "test" and ("self._check(other)" in norm(n.ast) or ("_REGISTRY" in norm(n.ast) and " is " in norm(n.ast)))]
+        # `self._check(other)` raises for an object of another registry whatever is done with its result, so executing it
+        # (in a test or in `is_quantity = self._check(other)`) before touching other's fields is what isolates registries
+        gates = [n.id for n in cfg.nodes if n.kind == "test" and "_REGISTRY" in norm(n.ast) and " is " in norm(n.ast)]
+        gates += nodes_with(cfg, lambda x: isinstance(x, ast.Call) and call_name(x) == "_check" and norm(x.func.value) == "self" and x.args and norm(x.args[0]) == "other")
         reads = nodes_with(cfg, lambda x: isinstance(x, ast.Attribute) and x.attr in ("_magnitude", "magnitude", "_units") and dotted(x.value) == "other")
         reads += nodes_with(cfg, lambda x: isinstance(x, ast.Call) and call_name(x) in ("to", "to_root_units", "ito_root_units") and isinstance(x.func, ast.Attribute) and dotted(x.func.value) == "other")
         for r in live(cfg, sorted(set(reads))):
